@@ -289,10 +289,38 @@ def genDbContent (ver : Nat) (l : Layout) (size : Nat) (bootstrapFirst : Bool) (
            raws := rels.toList.filterMap (·.raw) ++ rels.toList.filterMap (·.toastFile),
            detoast := (rels.toList.map (·.detoast)).flatten }
 
+/-- a fast default (open finding C01-MISSINGVAL) for the last user column of one ordinary table that has rows and at least two
+columns: rows written "before the ALTER TABLE" (those `genRow` made with fewer stored attributes) lack the column and
+PostgreSQL returns the default.  `[]` when the database has no such table or the enlarged pg_attribute rows do not fit -/
+def genMissing (l : Layout) (d : DbContent) : Gen (List ((Nat × Int) × Bytes)) := do
+  let cands : List AttrRow := d.heaps.filterMap fun (fn, pages) =>
+    match relOfFilenode d.cls fn with
+    | some r =>
+      let attrs := userAttrs d.att r.oid
+      if r.kind == 114 ∧ attrs.length ≥ 2 ∧ !pages.flatten.isEmpty then
+        match attrs.getLast? with
+        | some a => if a.dropped ∨ a.typid == 0 then none else some a
+        | none => none
+      else none
+    | none => none
+  match cands with
+  | [] => return []
+  | a0 :: _ =>
+    let a ← Gen.oneOf cands
+    let a := if cands.isEmpty then a0 else a
+    let payload : Bytes :=
+      if a.len = -1 then strBytes "dflt"
+      else if a.len = 64 then strBytes "dflt" ++ zeros 60
+      else if a.len = 1 then (if a.typid == 16 then [1] else [120])
+      else le a.len.toNat 42
+    let m := [((a.relid, a.num), payload)]
+    if fitB' (d.att.map fun pg => pg.map fun s => formRow (pgAttributeCols l) (attrValsM l m s.val) s.infomask) then return m else return []
+where fitB' (pages : List (List Tuple)) : Bool := pages.all fun ts => pageNeed ts ≤ 8192
+
 /-- `r6 := true` (the families of area `cluster`): also the clusters of the open findings C01-TPL / A02 / C01-SEG / C01-TBLSPC and
 relation names beyond ASCII case; with `false` (other areas' generators building on this one) every heap is one file under
 `base/<db>/`, every value is stored in line, and the name prefix `template` decides as before -/
-def genCluster (size : Nat) (r6 : Bool := false) : Gen Cluster := do
+def genCluster (size : Nat) (r6 : Bool := false) (r11 : Bool := false) : Gen Cluster := do
   let pgVersion ← Gen.oneOf [12, 13, 14, 15, 16, 16, 16]
   let l : Layout := if pgVersion ≥ 16 then .v16 else if pgVersion ≥ 14 then .v14 else .v12
   let nUserDb ← Gen.oneOf [0, 1, 1, 2, 2, 3]
@@ -331,11 +359,39 @@ def genCluster (size : Nat) (r6 : Bool := false) : Gen Cluster := do
     if isTpl ∧ (← Gen.prob 1 2) then continue
     let boot ← Gen.prob 7 8
     content := content.push (s.val.oid, ← genDbContent pgVersion l sz boot uni tsp r6)
+  -- R11 (second review, point 5), `r11 := true` = the families of area `cluster` only (no draw otherwise: the generators of
+  -- the other areas that build on this one — dropped, delscan, entry — keep their streams and their classes): now and then a database whose default tablespace is not pg_default (C01-TBLSPC), relocated mapped catalogs
+  -- (C01-MAPPED: VACUUM FULL / CLUSTER of pg_database, pg_class, pg_attribute), a column with a fast default (C01-MISSINGVAL)
+  let mut dbl := dbl
+  let mut globalMap : List (Nat × Nat) := []
+  let mut contentL := content.toList
+  if r11 then
+    if ← Gen.prob 1 24 then
+      let spc ← Gen.range 16600 16650
+      let victims := dbl.filter fun s => s.val.oid ≥ 16384 ∧ liveBits s.infomask
+      match victims with
+      | v :: _ => dbl := dbl.map fun s => if s.val.oid == v.val.oid then { s with val := { s.val with tblspc := spc } } else s
+      | [] => pure ()
+    if ← Gen.prob 1 80 then
+      globalMap := [(1262, ← Gen.range 300000 300999)] ++ (if ← Gen.bool then [(1260, 301500)] else [])
+    let mut out : Array (Nat × DbContent) := #[]
+    for (o, d) in contentL do
+      let mut d := d
+      if ← Gen.prob 1 50 then
+        let which ← Gen.below 3
+        let n1 ← Gen.range 310000 310999
+        let n2 ← Gen.range 311000 311999
+        d := { d with relmap := (if which != 1 then [(1259, n1)] else []) ++ (if which != 0 then [(1249, n2)] else []) }
+      if ← Gen.prob 1 20 then
+        let m ← genMissing l d
+        d := { d with missing := m }
+      out := out.push (o, d)
+    contentL := out.toList
   let pages ← paginate (fun (s : Stored DbRow) => (formRow (pgDatabaseCols pgVersion) (dbVals pgVersion s.val) s.infomask).len) dbl (← Gen.prob 1 3)
   -- now and then a build with a tiny segment size: heaps of more pages are split into <filenode>, <filenode>.1 … (open
   -- finding C01-SEG)
   let segPages ← (do if r6 ∧ (← Gen.prob 1 16) then Gen.oneOf [1, 1, 2] else pure 0)
-  return { pgVersion, dbs := pages, content := content.toList, segPages }
+  return { pgVersion, dbs := pages, content := contentL, segPages, globalMap }
 
 /-! ### Boolean well-formedness (mirrors Spec.Cluster.WF; used for tags and to reject bad draws) -/
 
